@@ -24,8 +24,8 @@ RULE = ('Well-typed terminating programs drawn from the typed generator G '
         'x every pair of operand types x 8-10 boundary values per type held '
         'in variables, unary operators, ABS / INT / CINT / CLNG, assignment '
         'conversions between all numeric types, and the string built-ins '
-        'over boundary arguments (complete in the thorough tier, a seeded '
-        'sample of 1500 in quick).  Non-trivial: accepted, R supports it, >= 3 '
+        'over boundary arguments (complete in the thorough tier; in quick '
+        'the binary-operator family is a seeded sample of 1200).  Non-trivial: accepted, R supports it, >= 3 '
         'events and >= 2 of {procedure call, loop with >= 2 iterations, '
         'array or record access, implicit conversion, GOTO/GOSUB, run-time '
         'error outcome}.  Distinct by hash of (text, script).')
@@ -371,11 +371,14 @@ def runtime_program(item):
 def items(cfg):
     out = runtime_items()
     if cfg.get('tier', 'quick') == 'quick':
+        # the binary-operator family is sampled, the small families are
+        # complete in both tiers
         import random
         from qv.runner import derive_seed
         rng = random.Random(derive_seed(ID, cfg.get('seed', 1), 0, 'items'))
-        rng.shuffle(out)
-        out = out[:1500]
+        big = [x for x in out if x[0] == 'bin']
+        rng.shuffle(big)
+        out = [x for x in out if x[0] != 'bin'] + big[:1200]
     return out
 
 
